@@ -96,15 +96,15 @@ Proof.
   destruct (match ondim with Some _ => grid_header (e_fuel E) ndim 0 [] m2 | None => Ret (false, []) m2 end) as [[ret rows] m3|b];
     cbn [bind]; [|contradiction].
   destruct HH as [L3 [G3 W3]].
+  rewrite HFG. destruct ret; cbn [negb andb]; [|split; [lia|split; [nia|exact I]]].
   rewrite alloc_ok by nia. cbn [bind]. rewrite alloc_ok by (simpl; nia). cbn [bind].
   set (m5 := mkM _ _).
   assert (L5 : len m5 = len m3) by reflexivity.
   assert (G5 : galloc m5 = galloc m3 + ndim * ndim * 8 + ndim * ndim * 8) by reflexivity.
-  destruct ret; cbn [negb]; [|split; [lia|split; [nia|exact I]]].
   specialize (W3 eq_refl).
   set (nx := map (fun r => fst (fst (fst r))) rows).
   set (g := grid_define ndim nx (map (fun r => snd (fst (fst r))) rows) (map (fun r => snd (fst r)) rows) (map snd rows)).
-  rewrite HFG. cbn [andb].
+  cbn [andb].
   destruct (existsb (fun v => v <? 0) nx || existsb num_neg (g_dx g)) eqn:CN; [split; [lia|split; [nia|exact I]]|].
   apply orb_false_iff in CN. destruct CN as [CN1 CN2].
   assert (Hg : g = mkGrid ndim nx (map (fun r => snd (fst (fst r))) rows) (map (fun r => snd (fst r)) rows)
